@@ -29,7 +29,11 @@ def _fld(t):
     return None
 
 
-def _source(f, t):
+_DOM = {}
+_PROG = [None]
+
+
+def _source(f, t, depth=0, at=None):
     """external source of a value: ('param', name) for a char parameter / an element of a char* parameter / of a record parameter's
     char array; None for constants, locals computed here, other fields"""
     t = strip(t)
@@ -38,6 +42,31 @@ def _source(f, t):
     p = apath(t)
     if p[0].startswith("p") and "[]" in p[2]:
         return p[1]
+    if is_var(t, kind="l") and depth < 2:
+        # a local copy of one element (`st = cstat[i]; if (st != ..)`): the assignment that reaches the use - all assignments when they
+        # agree, otherwise the closest one that dominates the block of the use
+        defs = []
+        for b, i, e in f.elements(live_only=False):
+            rs = []
+            if e[0] == "A" and e[1][1] == "=" and is_var(e[1][2], name=t[2], kind="l"):
+                rs.append(e[1][3])
+            elif e[0] == "D":
+                rs += [init for n, init in e[1] if n == t[2] and init is not None]
+            for r in rs:
+                defs.append((b["id"], _source(f, r, depth + 1)))
+        srcs = {x[1] for x in defs}
+        if len(srcs) == 1 and None not in srcs:
+            return list(srcs)[0]
+        if at is not None and defs:
+            dom = _DOM.get(id(f))
+            if dom is None:
+                dom = _DOM.setdefault(id(f), dominators(_PROG[0], f)[0])
+            cands = [(db, sx) for (db, sx) in defs if db == at or db in dom.get(at, ())]
+            if cands:
+                # the closest dominating definition: the one dominated by all the others
+                best = [c_ for c_ in cands if all(o[0] == c_[0] or o[0] in dom.get(c_[0], ()) for o in cands)]
+                if best:
+                    return best[-1][1]
     if p[0] == "l" and "[]" in p[2]:
         # local alias of a parameter
         for b, i, e in f.elements(live_only=False):
@@ -88,6 +117,8 @@ def run(prog, E=None, rule="R-ALPHABET", floor=3):
     res = RuleResult(rule, "every store of a caller-supplied character into a row-sense or basis-status array is dominated by a rejecting test of "
                            "that value against the field's alphabet (all letters but at most one)")
     funcs = [f for f in prog.funcs.values() if f.live is not None and "_dbl." not in f.unit and "_mpf." not in f.unit and f.unit.startswith("qsopt_ex/")]
+    _PROG[0] = prog
+    _DOM.clear()
     # 1. alphabets
     alpha = collections.defaultdict(set)
     for f in funcs:
@@ -118,7 +149,7 @@ def run(prog, E=None, rule="R-ALPHABET", floor=3):
                 if isinstance(nd, list) and nd and nd[0] == "b" and nd[1] in ("==", "!="):
                     for a, b_ in ((nd[2], nd[3]), (nd[3], nd[2])):
                         cv = const_of(b_)
-                        s_ = _source(f, a)
+                        s_ = _source(f, a, at=bid)
                         if cv is not None and s_:
                             out[s_].add(cv)
         return out
@@ -203,7 +234,7 @@ def run(prog, E=None, rule="R-ALPHABET", floor=3):
                         if isinstance(nd, list) and nd and nd[0] == "b" and nd[1] in ("==", "!="):
                             for a, b_ in ((nd[2], nd[3]), (nd[3], nd[2])):
                                 cv = const_of(b_)
-                                if cv is not None and _source(f, a) == src:
+                                if cv is not None and _source(f, a, at=d) == src:
                                     got.add(cv)
                 if got:
                     seen |= got
